@@ -180,8 +180,8 @@ Section Sound.
         * specialize (Hk id body). destruct (step st (TRecv id body)) as [st'|] eqn:Hst; [|contradiction].
           destruct Hk as [He' Hk].
           destruct (negb (len_ok cfg id body)).
-          -- unfold Monitor.ok. cbn. rewrite Hst. specialize (He' (OErr KIllegalLen)).
-             destruct (step st' (TEnd (OErr KIllegalLen))); [discriminate | apply He'; discriminate].
+          -- unfold Monitor.ok. cbn. rewrite Hst.
+             destruct (step st' (TEnd (OErr KIllegalLen))); [discriminate | exact He'].
           -- unfold Monitor.ok. cbn [untime map snd Monitor.run]. rewrite Hst. apply IH. exact Hk.
         * unfold Monitor.ok. cbn. specialize (He (OErr KClosed)).
           destruct (step st (TEnd (OErr KClosed))); [discriminate | apply He; discriminate].
